@@ -728,7 +728,11 @@ func fragDet(g *Gen, n int, o *Out) {
 				groups[k] = map[string]interface{}{"a": j % 3, "b": []string{"x", "y"}[j%2], "c": []int{7}}
 			}
 			tdatum["groups"], tdatum["k"] = groups, map[string]interface{}{"a": 1, "b": "s", "c": []int{7}}
+			tdatum["mixk"] = map[interface{}]interface{}{5: "a", uint64(1) << 63: "b", "1e400": "c", 2.5: "d", "name": "e", [2]int{1, 2}: "f", true: "g"}
+			tdatum["mixs"] = map[interface{}]int{"x": 1, "9223372036854775808": 2, 7: 3}
 			texts := []string{
+				"9223372036854775808 in mixk", "mixk contains \"1e400\"", "abc in mixk", "name not in mixk", "x in mixs", "mixs contains 7",
+				fmt.Sprintf("%s groups as _, g { 9223372036854775808 in mixs or g.a == 1 }", c.Op),
 				fmt.Sprintf("%s groups as _, g { any g as _, x { x == 1 } }", c.Op),
 				fmt.Sprintf("%s groups as gk, g { all g as k, x { x != 9 and gk != k } }", c.Op),
 				fmt.Sprintf("%s k as k, x { x == 1 }", c.Op),
